@@ -131,6 +131,9 @@ func init() {
 					pairs = nil
 					for i, a := range single {
 						for _, b := range single[i:] {
+							if a == 3 && b == 3 {
+								continue // two strings at independent offsets: by far the slowest job; strings on the same registers are the same=1 job
+							}
 							pairs = append(pairs, []int{a, b})
 						}
 					}
